@@ -39,8 +39,18 @@ def days_from_civil(y, m, d):
     return era * 146097 + doe - 719468
 
 
+# the last days of February in years of every leap-year class, on both sides of year 0 (the wire carries the year as
+# a two's-complement u32, so a rule applied to the raw number goes wrong for negative years)
+LEAP_YEARS = [-2000, -1600, -800, -400, -396, -300, -296, -200, -196, -100, -96, -8, -4, -1, 0, 1, 4, 96, 100, 196, 200, 396,
+              400, 1600, 1700, 1800, 1900, 1996, 2000, 2096, 2100, 2400]
+
+
 def gen_ymd(rng):
     c = rng.random()
+    if c < 0.12:
+        y = rng.choice(LEAP_YEARS + [MIN_YEAR + 3, MAX_YEAR - 2])
+        dim = days_in_month(y, 2)
+        return y, 2, rng.choice([dim, dim, 28])
     if c < 0.25:
         y = rng.choice([MIN_YEAR, MAX_YEAR, MIN_YEAR + 1, MAX_YEAR - 1, -1, 0, 1, 1970, 1969, 2000, 1900, 2100, 2024, 63, 64,
                         127, 128, 16383, 16384, -64, -65])
